@@ -6,7 +6,7 @@
    two runs of the REAL database (coq/Corr/C04.v spec_ok), `known_class_of` the recorded finding
    classes (coq/Corr/C04.v known_class). *)
 From Coq Require Import ZArith List Bool.
-From TV Require Import Model.Persist Proof.Persist Proof.PersistSim Proof.PersistWit Proof.PersistState.
+From TV Require Import Model.Persist Proof.Persist Proof.PersistSim Proof.PersistWit Proof.PersistState Proof.PersistCor.
 Import ListNotations.
 Open Scope Z_scope.
 
@@ -27,6 +27,21 @@ Theorem checkpoint_api_id :
   forall wal h, in_lang h = true -> forallb only_api h = true ->
     oracle h (run true (init wal) h) (run false (init wal) h) = true.
 Proof. exact checkpoint_api_id_l. Qed.
+
+(* the same with purely syntactic hypotheses.  close() + open and Database::checkpoint() at arbitrary
+   points (also with the WAL switched on and off inside the history) change nothing as long as no
+   INSERT follows a reopen *)
+Theorem close_reopen_id :
+  forall wal h, in_lang h = true -> forallb no_replay h = true -> no_ins_after false h = true ->
+    oracle h (run true (init wal) h) (run false (init wal) h) = true.
+Proof. exact close_reopen_id_l. Qed.
+
+(* with the WAL never enabled, all four interruptions (PRAGMA wal_checkpoint and drop + open included)
+   change nothing as long as no INSERT follows a reopen *)
+Theorem no_wal_id :
+  forall h, in_lang h = true -> forallb no_wal_on h = true -> no_ins_after false h = true ->
+    oracle h (run true (init false) h) (run false (init false) h) = true.
+Proof. exact no_wal_id_l. Qed.
 
 (* the persistent state itself (what no query shows directly): outside the classes an interruption
    at the end of any history leaves every table as it was - leaf rows with their row ids, header
@@ -67,6 +82,13 @@ Example c04_witness :
                  TPresent [] (Some 0) [[]; []; []; []; []; []; []; []]; TAbsent]).
 Proof. exact good_ok. Qed.
 
+Example c04_witness_cor :
+  in_lang cor1 = true /\ forallb no_replay cor1 = true /\ no_ins_after false cor1 = true
+  /\ in_lang cor2 = true /\ forallb no_wal_on cor2 = true /\ no_ins_after false cor2 = true
+  /\ nth_error (run true (init false) cor2) 10
+     = Some (OQ [TAbsent; TPresent [[Some 2; Some 12]] (Some 1) [[]; [[Some 2; Some 12]]; []; []; []; []; []; []]; TAbsent]).
+Proof. exact cor_witness. Qed.
+
 Check persist_observational_id :
   forall wal h, in_lang h = true ->
     known_class_of wal h (run true (init wal) h) = 0 ->
@@ -74,6 +96,12 @@ Check persist_observational_id :
 Check checkpoint_api_id :
   forall wal h, in_lang h = true -> forallb only_api h = true ->
     oracle h (run true (init wal) h) (run false (init wal) h) = true.
+Check close_reopen_id :
+  forall wal h, in_lang h = true -> forallb no_replay h = true -> no_ins_after false h = true ->
+    oracle h (run true (init wal) h) (run false (init wal) h) = true.
+Check no_wal_id :
+  forall h, in_lang h = true -> forallb no_wal_on h = true -> no_ins_after false h = true ->
+    oracle h (run true (init false) h) (run false (init false) h) = true.
 Check interruption_preserves_tables :
   forall wal h o, is_int o = true -> in_lang (h ++ [o]) = true ->
     known_class_of wal (h ++ [o]) (run true (init wal) (h ++ [o])) = 0 ->
@@ -93,6 +121,8 @@ Check checkpoint_refuted :
 
 Print Assumptions persist_observational_id.
 Print Assumptions checkpoint_api_id.
+Print Assumptions close_reopen_id.
+Print Assumptions no_wal_id.
 Print Assumptions interruption_preserves_tables.
 Print Assumptions reopen_refuted.
 Print Assumptions checkpoint_refuted.
